@@ -247,6 +247,7 @@ pub fn run(rep: &mut Report, rng: &mut Rng, thorough: bool) {
     run_far_repeats(rep, &mut rng.fork(), thorough, sweep);
     crate::twin::run_mf(rep, &mut rng.fork(), thorough, sweep);
     crate::twin::run_mf_adv(rep, &mut rng.fork(), thorough, sweep);
+    crate::twin::run_mf_renorm(rep, &mut rng.fork(), thorough, sweep);
     crate::twin::run_encfast(rep, &mut rng.fork(), thorough, sweep);
     run_big_chunks(rep, rng, thorough, sweep);
     let cases = if thorough { 3000 } else { 260 };
